@@ -299,7 +299,7 @@ pub fn run(cli: &Cli) {
     let mut rep = Report::new(&property, "archive", cli.seed, &cli.tier);
     { let mut ops = vec![]; let mut imp = vec![]; sanitize_corr(&mut rep, cli.seed, if cli.tier == "thorough" { 20000 } else { 2000 }, &mut ops, &mut imp); rep.diff_streams("corr:archive/sanitize", &ops, &imp); }
     let rt = tokio::runtime::Builder::new_multi_thread().worker_threads(4).enable_all().build().unwrap();
-    let n: u64 = cli.extra.get("cases").and_then(|s| s.parse().ok()).unwrap_or(if cli.tier == "thorough" { 30 } else { 3 });
+    let n: u64 = cli.extra.get("cases").and_then(|s| s.parse().ok()).unwrap_or(if cli.tier == "thorough" { 8 } else { 3 });
     for backend in ["fs", "db"] {
         for k in 0..n {
             let case_seed = cli.seed.wrapping_mul(1_000_003).wrapping_add(k);
